@@ -4,7 +4,7 @@ NOT_APPLICABLE = [
  {"property_id": "C04", "reason": "Gaussian-tail / infinite-series inequality over reals: no discrete or exact-rational core a TLA+ state machine can decide (DESIGN 6)"},
  {"property_id": "C08", "reason": "probability over Gaussian noise realisations (closed form only via the normal CDF); the deterministic second sentence is exercised under C06/C13 (DESIGN 6)"},
 ]
-PENDING = ["C01","C05","C12","C13","C14","C15","C16","C17","C18","C19","C20"]
+PENDING = ["C01","C05","C14","C15","C16","C17","C18","C19","C20"]
 for p in PENDING:
     NOT_APPLICABLE.append({"property_id": p, "reason": "check under construction in this round (planned in DESIGN 5); not yet claimed"})
 
@@ -28,3 +28,10 @@ add("C06", "TLC checks the run invariants (disjointness, U in P, monotone S/P, n
     _tr + " VOGP_AD is driven by the C18 check.", "TLC abstract run model + trace validation over a configuration matrix (crash/accounting/monotonicity clauses)", "DESIGN 5 C06")
 add("C07", "The remove-chosen-row arg-max loop is specified as IsTopQ; every evaluation of every driven run is validated: requested designs are active, form an arg-max sequence of the acquisition values recomputed through public calls on the pre-sampling state (ties share a rank), are distinct, and exactly the returned observations (ids by exact float identity) with their designs/objective indices are what the model gained, and the wrapped GP is conditioned on them.",
     _tr + " GP variance near-ties within 1e-5 relative share a rank; Thompson acquisition (DecoupledGP) argmax is not judged.", "TLC IsTopQ operator + trace validation of every evaluation (clauses sactive, sargmax, sdistinct, data)", "DESIGN 5 C07")
+
+add("C12", "TLC proves, for every integer cone matrix with entries in -2..2 (2 rows; 3 rows with entries -1..1 in quick, -2..2 in thorough) on the lattice -2..2, that the induced relation is reflexive, transitive, translation/scale invariant and antisymmetric iff the cone is pointed, and that 'within theta/2 of the diagonal' equals the two integer facet inequalities of the theta-cone; the dumped membership table is replayed into is_inside (single, batched, list) and dominates; bundled cones (orthant, theta 19-161 degrees, 3-D acute/right/obtuse, ice-cream K in {3,4,6} by Gram matrix and axis angle) are compared with the specification's rational geometry.",
+    "Exact geometry on integer lattices; theta membership compared on non-boundary lattice directions; ice-cream tangency decided for K in {3,4,6} only.",
+    "TLC exhaustive cone tables + table replay into code", "DESIGN 5 C12")
+add("C13", "The mask-and-compact loop of get_pareto_set is model-checked as a state machine for every sequence of <= 4 (thorough 5) vectors on a 3x3 lattice and 5-7 cones (3-facet and non-pointed included): sound, covering, one representative per value, valid/distinct/increasing indices, loop invariants and termination, plus the naive routine's theorem; the dumped table is replayed into both routines (identical index arrays), and random inputs of up to 300 points are compared with the definition.",
+    "Lattice 3x3, N <= 4/5 exhaustive; random larger inputs use the reference evaluator's ParetoDef (bound to the TLC table on every run).",
+    "TLC model checking of the loop as a state machine + exhaustive table replay", "DESIGN 5 C13")
